@@ -80,7 +80,7 @@ kind("siface", "[]interface{}", lambda lhs, n: choice(n, 4, [
     ['%s = []interface{}{vndInt("%s0"), vStr("%s1")}' % (lhs, n, n)]]), "coll")
 kind("spint", "[]*int", lambda lhs, n: choice(n, 4, [
     ["%s = []*int{}" % lhs], ["%s = []*int{nil}" % lhs],
-    ['x := vndInt("%s0")' % n, "%s = []*int{&x, nil}" % lhs]]), "coll")
+    ['pv := vndInt("%s0")' % n, "%s = []*int{&pv, nil}" % lhs]]), "coll")
 kind("ssint", "[][]int", lambda lhs, n: choice(n, 4, [
     ["%s = [][]int{}" % lhs], ["%s = [][]int{nil}" % lhs],
     ['%s = [][]int{{vndInt("%s0")}, {}}' % (lhs, n)]]), "coll")
@@ -277,6 +277,99 @@ def main():
                  'if vndBool("other") {', '\tm["j"] = x', '}',
                  'vRunMap("C03 gen Map(map[string]%s)", m, NewRule().Set("k", "required,r1").Set("j", "r2"))' % k["gotype"]]
         out.append("func H_C03_genmap_%s() {\n\t%s\n}\n" % (kname, "\n\t".join(body)))
+        nh += 1
+    # ---- C20: the dumper over a cross product of element kinds x containers ------------------------------
+    J_ELEMS = {
+        "string": ("string", 'vJSONText($N, 2)'), "bool": ("bool", "vndBool($N)"),
+        "int": ("int", "vPickInt($N)"), "int8": ("int8", "[]int8{0, -128, 127}[vndChoice($N, 3)]"),
+        "int16": ("int16", "[]int16{0, -32768, 32767}[vndChoice($N, 3)]"),
+        "int32": ("int32", "[]int32{0, -2147483648, 2147483647}[vndChoice($N, 3)]"),
+        "int64": ("int64", "[]int64{0, -9223372036854775808, 9223372036854775807}[vndChoice($N, 3)]"),
+        "uint": ("uint", "[]uint{0, 1, 18446744073709551615}[vndChoice($N, 3)]"),
+        "uint16": ("uint16", "[]uint16{0, 1, 65535}[vndChoice($N, 3)]"),
+        "uint32": ("uint32", "[]uint32{0, 1, 4294967295}[vndChoice($N, 3)]"),
+        "uint64": ("uint64", "[]uint64{0, 9223372036854775808, 18446744073709551615}[vndChoice($N, 3)]"),
+        "float64": ("float64", "[]float64{0, 1.5, -2.25, 1234.5678}[vndChoice($N, 4)]"),
+        "float32": ("float32", "[]float32{0, 0.1, -3.75, 16777216}[vndChoice($N, 4)]"),
+        "nstr": ("vGStr", "vGStr(vJSONText($N, 1))"), "nint": ("vGInt", "vGInt(vPickInt($N))"),
+        "obj": ("vJLeaf", "vJLeaf{N: vJSONText($N+\".N\", 1), K: vPickInt($N+\".K\")}"),
+        "empty": ("vJEmpty", "vJEmpty{}"),
+    }
+    def jx(ek, n):
+        return J_ELEMS[ek][1].replace("$N", '"%s"' % n)
+    def jt(ek):
+        return J_ELEMS[ek][0]
+    J_CONT = {}
+    J_CONT["direct"] = (lambda t: t, lambda ek, lhs, n: ["%s = %s" % (lhs, jx(ek, n))], None)
+    J_CONT["slice"] = (lambda t: "[]" + t, lambda ek, lhs, n: choice(n, 4, [
+        ["%s = []%s{}" % (lhs, jt(ek))], ["%s = []%s{%s}" % (lhs, jt(ek), jx(ek, n + "0"))],
+        ["%s = []%s{%s, %s}" % (lhs, jt(ek), jx(ek, n + "0"), jx(ek, n + "1"))]]), None)
+    J_CONT["arr2"] = (lambda t: "[2]" + t, lambda ek, lhs, n: ["%s = [2]%s{%s, %s}" % (lhs, jt(ek), jx(ek, n + "0"), jx(ek, n + "1"))], None)
+    J_CONT["arr0"] = (lambda t: "[0]" + t, lambda ek, lhs, n: [], None)
+    J_CONT["mapstr"] = (lambda t: "map[string]" + t, lambda ek, lhs, n: choice(n, 3, [
+        ["%s = map[string]%s{}" % (lhs, jt(ek))], ["%s = map[string]%s{vJSONText(\"%s.k\", 1): %s}" % (lhs, jt(ek), n, jx(ek, n + "0"))]]), None)
+    J_CONT["mapint"] = (lambda t: "map[int]" + t, lambda ek, lhs, n: choice(n, 2, [
+        ["%s = map[int]%s{vPickInt(\"%s.k\"): %s}" % (lhs, jt(ek), n, jx(ek, n + "0"))]]), None)
+    J_CONT["mapu8"] = (lambda t: "map[uint8]" + t, lambda ek, lhs, n: choice(n, 2, [
+        ["%s = map[uint8]%s{255: %s}" % (lhs, jt(ek), jx(ek, n + "0"))]]), None)
+    J_CONT["mapnstr"] = (lambda t: "map[vGStr]" + t, lambda ek, lhs, n: choice(n, 2, [
+        ["%s = map[vGStr]%s{\"nk\": %s}" % (lhs, jt(ek), jx(ek, n + "0"))]]), None)
+    J_CONT["sslice"] = (lambda t: "[][]" + t, lambda ek, lhs, n: choice(n, 3, [
+        ["%s = [][]%s{nil, {}}" % (lhs, jt(ek))], ["%s = [][]%s{{%s}, {%s, %s}}" % (lhs, jt(ek), jx(ek, n + "0"), jx(ek, n + "1"), jx(ek, n + "2"))]]), {"int", "string", "obj", "bool"})
+    J_CONT["smap"] = (lambda t: "[]map[string]" + t, lambda ek, lhs, n: choice(n, 3, [
+        ["%s = []map[string]%s{nil, {}}" % (lhs, jt(ek))], ["%s = []map[string]%s{{\"k\": %s}}" % (lhs, jt(ek), jx(ek, n + "0"))]]), {"int", "string", "obj", "bool"})
+    J_CONT["mslice"] = (lambda t: "map[string][]" + t, lambda ek, lhs, n: choice(n, 3, [
+        ["%s = map[string][]%s{\"k\": nil}" % (lhs, jt(ek))], ["%s = map[string][]%s{\"k\": {%s, %s}}" % (lhs, jt(ek), jx(ek, n + "0"), jx(ek, n + "1"))]]), {"int", "string", "obj", "bool"})
+    J_CONT["mmap"] = (lambda t: "map[string]map[string]" + t, lambda ek, lhs, n: choice(n, 3, [
+        ["%s = map[string]map[string]%s{\"k\": nil}" % (lhs, jt(ek))], ["%s = map[string]map[string]%s{\"k\": {\"j\": %s}}" % (lhs, jt(ek), jx(ek, n + "0"))]]), {"int", "string", "obj"})
+    J_CONT["sarr"] = (lambda t: "[][2]" + t, lambda ek, lhs, n: choice(n, 2, [
+        ["%s = [][2]%s{{%s, %s}}" % (lhs, jt(ek), jx(ek, n + "0"), jx(ek, n + "1"))]]), {"int", "string", "bool"})
+    # pointers: structs only (pointers to non-struct values are outside the property's domain)
+    def ptr_fill(ek, lhs, n):
+        return ['if vndBool("%s.set") {' % n, "\tpv := %s" % jx(ek, n), "\t%s = &pv" % lhs, "}"]
+    J_CONT["ptr"] = (lambda t: "*" + t, ptr_fill, {"obj", "empty"})
+    J_CONT["pptr"] = (lambda t: "**" + t, lambda ek, lhs, n: choice(n, 3, [
+        ["var p *%s" % jt(ek), "%s = &p" % lhs], ["pv := %s" % jx(ek, n), "p := &pv", "%s = &p" % lhs]]), {"obj", "empty"})
+    J_CONT["sptr"] = (lambda t: "[]*" + t, lambda ek, lhs, n: choice(n, 3, [
+        ["%s = []*%s{nil}" % (lhs, jt(ek))], ["pv := %s" % jx(ek, n + "0"), "%s = []*%s{&pv, nil}" % (lhs, jt(ek))]]), {"obj", "empty"})
+    J_CONT["mptr"] = (lambda t: "map[string]*" + t, lambda ek, lhs, n: choice(n, 3, [
+        ["%s = map[string]*%s{\"k\": nil}" % (lhs, jt(ek))], ["pv := %s" % jx(ek, n + "0"), "%s = map[string]*%s{\"k\": &pv}" % (lhs, jt(ek))]]), {"obj", "empty"})
+    J_CONT["a2ptr"] = (lambda t: "[2]*" + t, lambda ek, lhs, n: choice(n, 2, [
+        ["pv := %s" % jx(ek, n + "0"), "%s = [2]*%s{nil, &pv}" % (lhs, jt(ek))]]), {"obj"})
+    nj = 0
+    for cname, (tyf, fillf, only) in J_CONT.items():
+        for ek in J_ELEMS:
+            if only is not None and ek not in only:
+                continue
+            if ek == "uint8" or (cname in ("slice", "arr2", "arr0", "sslice") and ek == "uint8"):
+                continue
+            # three positions: alone, between two exported fields, after an unexported field and before the end
+            for pos, decl, init in (
+                ("mid", "\tA string\n\tF %s\n\tZ int\n", 'A: vJSONText("A", 1), Z: vPickInt("Z")'),
+                ("alone", "\tF %s\n", ""),
+                ("hid", "\ta int\n\tF %s\n\tz string\n", 'a: 1, z: "z"'),
+            ):
+                if pos != "mid" and cname in ("mapu8", "mapnstr", "sarr", "a2ptr", "arr0", "mmap"):
+                    continue
+                tname = "vGJ%s%s%s" % (camel(cname), camel(ek), camel(pos))
+                out.append("type %s struct {\n%s}\n" % (tname, decl % tyf(jt(ek))))
+                body = ["o := &%s{%s}" % (tname, init)] + fillf(ek, "o.F", "F")
+                body.append('vC20Check("gen %s %s", o)' % (tyf(jt(ek)).replace('"', "'"), pos))
+                out.append("func H_C20_gen_%s_%s_%s() {\n\t%s\n}\n" % (cname, ek, pos, "\n\t".join(body)))
+                nj += 1
+    nh += nj
+    # ---- C13: every kind as the top-level input of every entry point (no panic) ----------------------------
+    for kname, k in KINDS.items():
+        if kname == "dur":
+            continue  # rendering a symbolic time.Duration runs Duration.String from source: out of reach, and not a shape question
+        body = ["var x %s" % k["gotype"]] + k["fill"]("x", "x")
+        body += ['rm := NewRule().Set("k", "required,phone").Set("j,N", "exist,to=1~2,nope")',
+                 'switch vndChoice("entry", 6) {',
+                 'case 0:', '\t_ = Struct(x)', 'case 1:', '\t_ = Struct(&x, rm)',
+                 'case 2:', '\t_ = Var(x, "required,to=1~2,exist,nope,phone")',
+                 'case 3:', '\t_ = Map(x, rm)', 'case 4:', '\t_ = Map(&x, rm)',
+                 'case 5:', '\t_ = Url(x, rm)', '}', 'vReach("end")']
+        out.append("func H_C13_gen_%s() {\n\t%s\n}\n" % (kname, "\n\t".join(body)))
         nh += 1
     src = "\n".join(out)
     old = open(OUT).read() if os.path.exists(OUT) else None
